@@ -55,6 +55,16 @@ def cred(name):
         chain = X509CertChain([x])
         key = parsePEMKey(_read(kf), private=True,
                           implementations=["python"])
+        if hasattr(key, "blinder"):
+            # RSA blinding values are created from os.urandom on first use
+            # and kept in the key object: create them now, outside any
+            # endpoint's random stream, so later runs are reproducible
+            prev = DET.current
+            DET.current = "keywarm:" + name
+            try:
+                key._rawPrivateKeyOp(2)
+            finally:
+                DET.current = prev
         _cache[name] = (chain, key)
     return _cache[name]
 
